@@ -794,18 +794,18 @@ func (f *FeaturesByID) isGraphNode(from *featureBlock, point Reference) bool {
 					if len(p.Tags) > 1 { // the location is itself a tag
 						return true
 					}
-					paths++
+					paths += f.countIndexedPaths(fb, p.Path)
 				case PointTagFull:
 					var p FullPoint
 					p.Unmarshal(&fb.Namespaces, t.Data)
 					if len(p.Tags) > 1 { // the location is itself a tag
 						return true
 					}
-					paths += len(p.Paths)
+					paths += f.countIndexedPaths(fb, p.Paths...)
 				case PointTagReferencesOnly:
 					var r PointReferences
 					r.Unmarshal(&fb.Namespaces, t.Data)
-					paths += len(r.Paths)
+					paths += f.countIndexedPaths(fb, r.Paths...)
 				}
 				if paths > 1 {
 					return true
@@ -814,6 +814,27 @@ func (f *FeaturesByID) isGraphNode(from *featureBlock, point Reference) bool {
 		}
 	}
 	return false
+}
+
+// countIndexedPaths returns the number of the given paths, referenced from
+// the block from, that are present in the index. Points record every path
+// that referenced them when the index was built, including paths later
+// dropped as invalid.
+func (f *FeaturesByID) countIndexedPaths(from *featureBlock, paths ...Reference) int {
+	n := 0
+	for _, path := range paths {
+		_, encoded := path.TypeAndNamespace.Split()
+		namespace := from.NamespaceTable.Decode(encoded)
+		for _, fb := range f.features[b6.FeatureTypePath] {
+			if ns, ok := fb.NamespaceTable.MaybeEncode(namespace); ok && fb.Namespaces[b6.FeatureTypePath] == ns {
+				if b := fb.Map.FindFirstWithTag(path.Value, encoding.NoTag); b != nil {
+					n++
+					break
+				}
+			}
+		}
+	}
+	return n
 }
 
 func (f *FeaturesByID) FindRelationsByFeature(id b6.FeatureID) b6.RelationFeatures {
